@@ -6,6 +6,8 @@ import (
 	"fmt"
 	"os"
 	"path/filepath"
+	"runtime"
+	"runtime/debug"
 	"sort"
 	"strings"
 
@@ -31,10 +33,17 @@ type c19Case struct {
 	Big    int          `json:"big,omitempty"`   // xattr value length injected into one entry (framing sweep)
 	BigAt  int          `json:"bigat,omitempty"` // index of that entry in path order
 	Merge  bool         `json:"merge,omitempty"`
+	// FailFirst: before the judged transfer, another metadata-only receive (other tree, other destination) is
+	// aborted by this stream failure in the same process
+	FailFirst *xfer.Fault `json:"failfirst,omitempty"`
 }
 
 func (c c19Case) String() string {
-	return fmt.Sprintf("src=%s select=%v prior=%s mem=%v big=%d@%d merge=%v", c.Src, c.Select, c.Prior, c.Mem, c.Big, c.BigAt, c.Merge)
+	s := fmt.Sprintf("src=%s select=%v prior=%s mem=%v big=%d@%d merge=%v", c.Src, c.Select, c.Prior, c.Mem, c.Big, c.BigAt, c.Merge)
+	if c.FailFirst != nil {
+		s += fmt.Sprintf(" after-aborted-receive(%s@%d)", c.FailFirst.End, c.FailFirst.K)
+	}
+	return s
 }
 
 func parseListing(b []byte) ([]*types.Stat, error) {
@@ -107,6 +116,13 @@ func judgeC19(c c19Case) (string, string) {
 		return "infra", err.Error()
 	}
 	priorSnap, _ := fsmodel.Snapshot(dst)
+	if c.FailFirst != nil {
+		lost := fsmodel.Tree{{Path: "lost1", Kind: fsmodel.File, Perm: 0644, Mtime: fsmodel.T0, Data: []byte("1")}, {Path: "lost2", Kind: fsmodel.Dir, Perm: 0755, Mtime: fsmodel.T0},
+			{Path: "lost2/x", Kind: fsmodel.File, Perm: 0644, Mtime: fsmodel.T0, Data: fsmodel.Content(3, 40000)}, {Path: "lost3", Kind: fsmodel.File, Perm: 0644, Mtime: fsmodel.T0, Data: []byte("3")}}
+		other := filepath.Join(root, "other")
+		os.Mkdir(other, 0755)
+		xfer.RunFault(memfs.New(lost), other, fsutil.ReceiveOpt{MetadataOnly: func(string, *types.Stat) bool { return true }}, nil, *c.FailFirst)
+	}
 	opt := fsutil.ReceiveOpt{Merge: c.Merge, MetadataOnly: func(p string, st *types.Stat) bool { return sel[p] }}
 	res := xfer.Run(sfs, dst, opt, nil)
 	if res.TimedOut {
@@ -301,6 +317,30 @@ func runC19(r *evid.Run) {
 	r.Rule = "one evaluation = one metadata-only transfer; selectors = every subset of the tree's paths; non-trivial = cases with a non-empty tree; states = distinct cases"
 	r.Assume = []string{"a source directory named like the listing file is skipped like a file of that name", "runs as root on tmpfs"}
 	cases := c19Cases(r.Tier)
+	// histories through an error path: a metadata-only receive aborted at every stream call, then a healthy one in
+	// the same process. Run one after the other on a single P with the collector off, so that whatever the aborted
+	// call left in process-wide state (pools included) is what the next call finds.
+	base := fsmodel.Tree{{Path: "d", Kind: fsmodel.Dir, Perm: 0755, Mtime: fsmodel.T0}, {Path: "d/f2", Kind: fsmodel.File, Perm: 0644, Mtime: fsmodel.T0, Data: []byte("22")},
+		{Path: "f1", Kind: fsmodel.File, Perm: 0644, Mtime: fsmodel.T0, Data: []byte("1")}}
+	var hist []c19Case
+	for _, end := range []string{"R.recv", "S.send", "R.send"} {
+		for k := 0; k < 10; k++ {
+			hist = append(hist, c19Case{Src: base, Select: []string{"f1"}, Prior: "empty", Mem: true, FailFirst: &xfer.Fault{End: end, K: k}})
+		}
+	}
+	oldP, oldGC := runtime.GOMAXPROCS(1), debug.SetGCPercent(-1)
+	for _, c := range hist {
+		key, msg := judgeC19(c)
+		r.Evaluations.Add(1)
+		r.State(c.String())
+		r.Nontrivial(c.String())
+		if key != "" {
+			r.Violate("history:"+key, c.String()+": "+msg, c)
+		}
+	}
+	runtime.GOMAXPROCS(oldP)
+	debug.SetGCPercent(oldGC)
+	r.Set("history_cases", len(hist))
 	r.Set("cases", len(cases))
 	fails := map[string]int{}
 	par.Do(len(cases), par.Workers(), func(i int) {
@@ -324,6 +364,10 @@ func replayC19(raw json.RawMessage) string {
 	var c c19Case
 	if err := json.Unmarshal(raw, &c); err != nil {
 		return "bad case: " + err.Error()
+	}
+	if c.FailFirst != nil {
+		defer debug.SetGCPercent(debug.SetGCPercent(-1))
+		defer runtime.GOMAXPROCS(runtime.GOMAXPROCS(1))
 	}
 	k, m := judgeC19(c)
 	if k == "" {
